@@ -237,6 +237,10 @@ def run_ref(prog, inputs, flags="", preset=None, finish=False, fuel=1500):
 
 def run_impl(text, inputs):
     r = sandbox.run_program(text, inputs=list(inputs), timeout=3.0)
+    if isinstance(r.exc, sandbox.CaseTimeout):
+        r = sandbox.run_program(text, inputs=list(inputs), timeout=20.0)  # slow is not wrong: once more with a generous budget
+        if isinstance(r.exc, sandbox.CaseTimeout):
+            return ("timeout", "no result within 20 s", r.stdout)
     if r.exc is not None:
         return ("raises", type(r.exc).__name__ + ": " + str(r.exc)[:80], r.stdout)
     try:
@@ -296,6 +300,9 @@ def compare(part, prog, inputs, section):
         part.skip("divergent by reference (fuel)")
         return
     impl = run_impl(text, inputs)
+    if impl[0] == "timeout":
+        part.cap("implementation did not return within 20 s where the reference terminates: " + text)
+        return
     part.nontriv()
     part.outcome((impl[0], hash(ref[1]) % 9973))
     size = progs.size_seq(prog) * 100 + len(text) + len(inputs)
@@ -527,6 +534,11 @@ def _flag_shard(args):
                     part.skip("out of the reference's domain / fuel (flags)")
                     continue
                 out, exc = sandbox.execute_vyxal(text, fl, [repr(x) for x in inputs], timeout=3.0)
+                if isinstance(exc, sandbox.CaseTimeout):
+                    out, exc = sandbox.execute_vyxal(text, fl, [repr(x) for x in inputs], timeout=20.0)
+                    if isinstance(exc, sandbox.CaseTimeout):
+                        part.cap("execute_vyxal did not return within 20 s where the reference terminates: %s flags=%s" % (text, fl))
+                        continue
                 part.nontriv()
                 part.outcome((fl, exc is None))
                 size = progs.size_seq(p) * 100 + len(text) + 10
